@@ -435,7 +435,19 @@ def prog_names(arg):
     return out
 
 
-PROGS = {'names': prog_names, 'c04': prog_c04, 'c08': prog_c08, 'c14': prog_c14, 'c19': prog_c19, 'c20': prog_c20,
+def prog_c05(arg):
+    """One shard of C05's shape-enumerated histories (lookups interleaved with
+    mutations on one live registry: this is where caches can go stale in one
+    implementation only)."""
+    m = _m('c05')
+    flavour, shape, part, nparts = arg
+    out = []
+    for h in m.histories(shape, part, nparts):
+        out.append((h, m.trace_hist(flavour, h)))
+    return out
+
+
+PROGS = {'c05': prog_c05, 'names': prog_names, 'c04': prog_c04, 'c08': prog_c08, 'c14': prog_c14, 'c19': prog_c19, 'c20': prog_c20,
          'odd': prog_odd}
 
 
@@ -581,10 +593,13 @@ def run(ctx):
     arglists = [c for n in range(0, 4) for c in itertools.product(c20.NAMES, repeat=n)]
     small = [a for a in arglists if len(a) <= 2]
     sets.append(('c20', [(a, b) for a in small for b in arglists]))
+    n5 = NPROC * 4
+    sets.append(('c05', [(f, sh, k, n5) for f in ('adapter', 'verifying')
+                         for sh in (('LML',) if quick else ('LML', 'WMWML')) for k in range(n5)]))
     sets.append(('odd', [0, 1, 2, 3]))
     sets.append(('names', [(f, w) for f in ('adapter', 'verifying') for w in (False, True)]))
     for kind, items in sets:
-        size = 1 if kind in ('odd', 'names') else max(20, len(items) // (NPROC * 4))
+        size = 1 if kind in ('odd', 'names', 'c05') else max(20, len(items) // (NPROC * 4))
         parts = chunks(items, size)
         rc = ctx.map('c', 'run_programs', [(kind, p, kind == 'odd') for p in parts])
         rp = ctx.map('py', 'run_programs', [(kind, p, kind == 'odd') for p in parts])
@@ -605,6 +620,10 @@ def run(ctx):
                             if repr(sx) != repr(sy):
                                 report('prog', 'odd', sx[0].split(':', 1)[1] + ':' + _odd_class(sx[0]),
                                        dict(what='prog', kind=kind, item=it, step=j), sx, sy)
+                    elif kind == 'c05' and i is not None and p is not None and q is not None:
+                        # report the first divergent history of the shard
+                        report('prog', kind, 'history', dict(what='prog', kind=kind, item=it, step=i), p, q)
+                        break
                     else:
                         report('prog', kind, 'program', dict(what='prog', kind=kind, item=it), x, y)
                         break
